@@ -1095,7 +1095,8 @@ def rule_c17_r8(model: Model) -> RuleResult:
                 elif isinstance(k, ast.Name) and isinstance(m.assign_values.get(k.id), ast.Constant):
                     keys.add(m.assign_values[k.id].value)      # type: ignore[union-attr]
     forms = [nz.expr(n.ast.value, n) for n in cfg.live_nodes() if n.kind == 'return' and n.ast is not None and n.ast.value is not None]
-    hit = [x for x in forms if re.search(r"\[(tuple\()?\(?(GEN|LIST)\(pane\.util\.replace_typevars\(", x) and any(repr(k) in x for k in keys)
+    bkey = _boundvars_key(model)
+    hit = [x for x in forms if re.search(r"\[(tuple\()?\(?(GEN|LIST)\(pane\.util\.replace_typevars\(", x) and repr(bkey) in x
            and ('__origin__' in x)]
     r.sample({'re-parametrising return': hit[:1]})
     if hit:
@@ -1104,4 +1105,53 @@ def rule_c17_r8(model: Model) -> RuleResult:
         r.fail(f.qualname, 'no branch re-parametrises a parametrised pane dataclass', f.loc(),
                "a field typed Inner[T] keeps T when Outer[int] is built: Outer[int].from_data({'inner': {'v': 'x'}}) is accepted although v "
                "must be an int")
+    return r
+
+
+def _boundvars_key(model: Model) -> str:
+    """The namespace key under which a parametrised class keeps its {type variable: argument} table (found by role)."""
+    mk = model.func(f'{CLS}._make_subclass')
+    m = model.module(CLS)
+    keys = set()
+    for c in ast.walk(mk.node):
+        if isinstance(c, ast.Call) and isinstance(c.func, ast.Name) and c.func.id == 'type' and len(c.args) == 3 and isinstance(c.args[2], ast.Dict):
+            for k, v in zip(c.args[2].keys, c.args[2].values):
+                if isinstance(v, ast.Name) and k is not None:
+                    kk = k.value if isinstance(k, ast.Constant) else (m.assign_values.get(k.id).value if isinstance(k, ast.Name)  # type: ignore[union-attr]
+                                                                      and isinstance(m.assign_values.get(k.id), ast.Constant) else None)
+                    defs = [d for d in cfg_of(model, mk).reaching().by_name.get(v.id, []) if d.value is not None]
+                    if kk and any('zip(' in unparse(d.value) for d in defs):
+                        keys.add(kk)
+    if len(keys) != 1:
+        raise AnalysisError(f"{mk.loc()}: attribute holding the type-variable bindings not identified ({sorted(keys)})")
+    return keys.pop()
+
+
+def rule_c17_r9(model: Model) -> RuleResult:
+    """C17 / C13: a parametrised type is rebuilt from all of its arguments (Annotated keeps every annotation, Callable every slot ...)."""
+    r = RuleResult('C17-R9', 'type-variable substitution rebuilds a type from all of its arguments, never from a chosen few', floor=1)
+    f = model.func('pane.util.replace_typevars')
+    cfg = cfg_of(model, f)
+    nz = Normalizer(model, f, cfg, param_map=_pm(f))
+    r.analysed.add(f.qualname)
+    n_sub = 0
+    for n in cfg.live_nodes():
+        if n.kind != 'return' or n.ast is None or n.ast.value is None:
+            continue
+        form = nz.expr(n.ast.value, n)
+        if '[' not in form:
+            continue
+        n_sub += 1
+        r.instances += 1
+        picks = re.findall(r'typing\.get_args\(\$ty\)\[(?:\d+|-\d+)\]', form)
+        in_index = [p_ for p_ in picks if re.search(r'\]?\[[^\]]*' + re.escape(p_), form)]
+        r.sample({'rebuilds': form[:120], 'argument picks': picks})
+        if in_index and re.search(r'^[\w.()$ |]+\[.*typing\.get_args\(\$ty\)\[', form):
+            r.fail(f.qualname, f"rebuilt from {sorted(set(picks))} only", f.loc(n.ast),
+                   "a parametrised type is rebuilt from some of its arguments: e.g. Annotated[T, c1, c2] loses c2 when T is substituted, so "
+                   "Box[int] accepts values that fail the second condition")
+        else:
+            r.ok()
+    if n_sub == 0:
+        raise AnalysisError(f"{f.loc()}: replace_typevars has no return that re-subscripts a type")
     return r
